@@ -68,7 +68,17 @@ def spell_int(v: int, ch: Callable[[int], int], dims: set) -> str:
         return neg + ("0o" if ch(2) == 0 else "0O") + format(a, "o")
     if k == 3:
         return neg + ("0b" if ch(2) == 0 else "0B") + format(a, "b")
-    return neg + "0x" + "0" * (1 + ch(3)) + format(a, "x")
+    return neg + "0x" + "0" * n_zeros(ch, dims) + format(a, "x")
+
+
+def n_zeros(ch: Callable[[int], int], dims: set) -> int:
+    """how many redundant zeros: 1-3; one time in 64 a number that crosses what fixed buffers and digit-count limits
+    allow (40, 700, 5000). One tape read, and the same 1-3 as before for the other 63 (192 is a multiple of 3)."""
+    t = ch(192)
+    if t // 3 == 63:
+        dims.add("many_zeros")
+        return [40, 700, 5000][t % 3]
+    return 1 + t % 3
 
 
 def spell_decimal(txt: str, ch: Callable[[int], int], dims: set) -> str:
@@ -83,7 +93,7 @@ def spell_decimal(txt: str, ch: Callable[[int], int], dims: set) -> str:
     if k == 1:
         whole2 = w  # may be empty: ".5"
     elif k == 2:
-        whole2 = "0" * (1 + ch(3)) + w
+        whole2 = "0" * n_zeros(ch, dims) + w
     else:
         whole2 = w or "0"
     if whole2 != whole:
@@ -210,7 +220,7 @@ class Renderer:
                 self.dims.add("pos_negative_zero")
             if z == 1:
                 self.dims.add("pos_decimal_zeros")
-                return sign + "0" * (1 + self.ch(3)) + digits
+                return sign + "0" * n_zeros(self.ch, self.dims) + digits
             if z == 2 and n == 0:
                 self.dims.add("pos_decimal_zeros")
                 return sign  # ".5" or "-.5"
@@ -671,8 +681,15 @@ def assemble(toks: list[Tok], layout=None, dims: set | None = None, cr: bool = F
     ends: dict = {}
     prev = ""
     used_layout = False
+    # one layout tape in eight stands for minified text: no blank, line break or comment that the token rules do not
+    # require (a function of the tape's content, so that no choice moves)
+    compact = layout is not None and sum(getattr(layout, "ints", [1])) % 8 == 0
+    if compact and dims is not None:
+        dims.add("minified")
     for i, t in enumerate(toks):
-        if layout is None:
+        if compact:
+            sep = " " if needs_sep(prev, t.s) else ""
+        elif layout is None:
             if i == 0:
                 sep = ""
             elif t.pre == "\n":
